@@ -23,6 +23,7 @@ const modPath = "github.com/resgateio/resgate"
 // rules work on. Everything is rebuilt from the working tree on every run.
 type Prog struct {
 	roleMemo    map[string]*ssa.Function
+	addrArgs    map[*types.Var][]addrArg // field -> call sites handing the field's address to a helper that derefs it
 	esStates    map[*ssa.Function]map[ssa.Instruction]int
 	implDepth   int                                  // recursion depth of helperImplies
 	boundMakers map[*ssa.Function][]*ssa.MakeClosure // bound-method wrapper -> the places that make the method value
@@ -45,6 +46,14 @@ type Prog struct {
 	mayWrite    map[*ssa.Function]map[*types.Var]bool
 	ctxCache    *ctxInfo
 	fuzzy       []string // anchors resolved to a renamed object
+}
+
+// addrArg: a call that passes &x.f to a repository function which loads or
+// stores through that parameter.
+type addrArg struct {
+	Call   ssa.CallInstruction
+	Writes bool
+	Reads  bool
 }
 
 func shortName(s string) string {
@@ -202,6 +211,45 @@ func (p *Prog) index() {
 					fv := fieldOfAddr(x)
 					if fv != nil {
 						p.faddrs[fv] = append(p.faddrs[fv], x)
+						// the field's address handed to a helper that reads / writes through it
+						if refs := x.Referrers(); refs != nil {
+							for _, r := range *refs {
+								call, ok := r.(ssa.CallInstruction)
+								if !ok {
+									continue
+								}
+								sf := call.Common().StaticCallee()
+								if sf == nil || len(sf.Blocks) == 0 || !strings.HasPrefix(sf.Package().Pkg.Path(), modPath) {
+									continue
+								}
+								args := callArgs(call.Common())
+								for ai, a := range args {
+									if a != ssa.Value(x) || ai >= len(sf.Params) {
+										continue
+									}
+									prm := sf.Params[ai]
+									aa := addrArg{Call: call}
+									for _, pr := range *prm.Referrers() {
+										switch y := pr.(type) {
+										case *ssa.Store:
+											if y.Addr == ssa.Value(prm) {
+												aa.Writes = true
+											}
+										case *ssa.UnOp:
+											if y.Op == token.MUL {
+												aa.Reads = true
+											}
+										}
+									}
+									if aa.Writes || aa.Reads {
+										if p.addrArgs == nil {
+											p.addrArgs = map[*types.Var][]addrArg{}
+										}
+										p.addrArgs[fv] = append(p.addrArgs[fv], aa)
+									}
+								}
+							}
+						}
 					}
 				case *ssa.Store:
 					if fa, ok := x.Addr.(*ssa.FieldAddr); ok {
